@@ -81,6 +81,24 @@ DESC = {
     "C17-4": ("last-key memo in deterministic_proba (two module globals)", "a thread pre-empted between the two stores while another thread hashes"),
     "C18-3": ("z-score memoised under round(confidence, 6)", "two calls in one process whose confidences differ beyond the sixth decimal"),
     "C18-4": ("method names resolved by prefix", "an unknown method name that is a prefix of a known one ('', 'w', 'agresti-coul')"),
+    "C02-5": ("`int` dropped from the operand Union of TerminalPredicate ('float already accepts int')", "an integer literal beyond 2^53 as a comparison operand and a field value within a few units of it"),
+    "C02-6": ("tuple production drops repeated members", "a tuple literal with a duplicate member used with == / != / ordering or nested in an outer tuple"),
+    "C05-5": ("right-hand tuple of in / not in de-duplicated recursively", "a nested tuple literal whose inner tuple repeats a member ((1, 1), ..)"),
+    "C05-6": ("shared pydantic Config with anystr_strip_whitespace", "a salt literal that starts or ends with white space"),
+    "C06-5": ("sly: tokenize() resets the pushed lexer state in its finally block", "a complete definition followed by an unclosed /* (the end-of-input state check never fires)"),
+    "C06-6": ("recompile checksum over whitespace-collapsed source", "recompile(B) where B has A's non-blank characters but is outside the grammar"),
+    "C07-5": ("sly: 'parser is not consuming input' guard counting reductions between shifts", "a right-recursive list with 42+ members (groups, else-if arms, tuple members, splitters)"),
+    "C07-6": ("rendered return line memoised per group list (indentation included)", "the same group list returned from two branches at different depths, the deeper one later"),
+    "C08-5": ("sly: text normalised with splitlines() before lexing", "a // comment containing CR, VT, FF, FS..RS, NEL, LS or PS followed by token-like text"),
+    "C08-6": ("comments allowed inside 'else if' / 'not in' via a backtracking gap regex", "a // comment between else and { containing 'if <valid predicate>' (also: catastrophic backtracking on some comments)"),
+    "C11-5": ("identity fast path (id(source), len(source)) in front of the checksum", "the accepted text freed and a different text of equal length allocated at the same address"),
+    "C11-6": ("sly: class-level lexer state stack + end-of-input check", "one rejected text with an unterminated block comment, then any compile on any evaluator"),
+    "C13-5": ("typed tuple aliases in the pydantic AST", "a depth-3 tuple of (key, value) pairs with a pair keyed \"name\": pydantic coerces it into an Identifier"),
+    "C13-6": ("generate() assembled with string.Template placeholders", "a string literal containing $key / $name / $$"),
+    "C14-5": ("exposed helper decorated with lru_cache", "exposed layout and an unhashable condition-field value (list, dict, set)"),
+    "C14-6": ("`not a != b` folded in place on the AST + per-text AST cache in generate_code", "generate_code called twice for a text with `not` directly on != / not in"),
+    "C17-5": ("sly: one pre-created YaccProduction per grammar production (class-level)", "two threads reducing the same production at once with different values"),
+    "C17-6": ("codegen temporarily raises sys.setrecursionlimit and restores the saved value", "two threads overlapping in codegen on a > 1000-rung else-if ladder, in a particular exit order"),
 }
 
 
@@ -99,7 +117,9 @@ def main():
             change=what,
             needs_to_manifest=needs,
             written_by="independent sub-agent given only the property text and a scratch git worktree of /repo (nothing from /verif)"
-                       + ("; round 2: additionally told which round-1 ideas not to repeat" if int(name.split("-")[1]) >= 3 else ""),
+                       + ("; round 2: additionally told which round-1 ideas not to repeat" if int(name.split("-")[1]) in (3, 4) else "")
+                       + ("; round 3: told the ideas of rounds 1-2 and asked to work in the vendored sly library / the pydantic AST / files "
+                          "earlier rounds left alone" if int(name.split("-")[1]) >= 5 else ""),
             confirmed=dict(
                 patch_applies=run.get("patch_applies"),
                 baseline_tests_pass_with_change=run.get("tests_pass_with_change"),
